@@ -107,7 +107,20 @@ def check(chk):
             if src(v.elt) != '%s[1]' % var or src(it_) != 'sorted(self._results_queue)':
                 return False
         return True
-    chk.judge(_sorted_projection(lr), 'C32.index', lr, 'list results returned sorted by idx', 'result order changed')
+    def _sorted_projection2(fn):
+        # the same through an accumulating loop: for idx, res in sorted(queue): out.append(res)
+        from ..sem import elementwise as _ew32
+        ew = _ew32(fn)
+        from ..sem import _comp_descr as _cd32, resolve as _rs32
+        rets_ = [r for r in body_walk(fn) if isinstance(r, ast.Return) and r.value is not None]
+        good_ = (('list', 'sorted(self._results_queue)', '_e1'), ('list', 'sorted(self._results_queue)', '_e0[1]'))
+
+        def _d(r):
+            if isinstance(r.value, ast.Name) and len(ew.get(r.value.id, [])) == 1:
+                return ew[r.value.id][0][0]
+            return _cd32(_rs32(fn, r.value))
+        return bool(rets_) and all(_d(r) in good_ for r in rets_)
+    chk.judge(_sorted_projection(lr) or _sorted_projection2(lr), 'C32.index', lr, 'list results returned sorted by idx', 'result order changed')
     gr = m.func('ConcurrentExecutorGenResults._results')
     chk.judge('self._results_queue[0][0] != self._current' in src(gr) and 'self._current += 1' in src(gr), 'C32.index', gr, 'generator yields result number _current next', 'generator order changed')
 
